@@ -104,7 +104,7 @@ func runC16(c *runCtx) {
 // of / inside a document (recursion anywhere outside the guarded scanner shows up the same way).
 func runBombs(c *runCtx, prop string) {
 	self, _ := os.Executable()
-	shapes := []string{"arr", "obj", "mixed", "padded", "ws-pad", "nl-pad", "ws-inside"}
+	shapes := []string{"arr", "obj", "mixed", "padded", "ws-pad", "nl-pad", "ws-inside", "sib-arr", "sib-obj", "wide-obj", "wide-arr", "arr-garbage", "deep-ok"}
 	depths := []int{10000, 100000, 1000000}
 	if c.tier == "thorough" {
 		depths = append(depths, 10000000)
@@ -137,12 +137,16 @@ func runBombs(c *runCtx, prop string) {
 						continue
 					}
 					f := strings.Fields(res)
-					wantJSON := strings.HasSuffix(sh, "pad") || sh == "ws-inside" // padding does not nest: these are small valid documents
+					wantJSON := strings.HasSuffix(sh, "pad") || sh == "ws-inside" || strings.HasPrefix(sh, "wide-") || sh == "deep-ok" // no nesting beyond the cap: valid documents
+					if sh == "arr-garbage" && f[1] == "1" {
+						c.propfail(c.garbageProp(), fmt.Sprintf("brackets followed by a mismatched closer and junk reported as JSON: %s result=%s", desc, f[2]))
+						continue
+					}
 					isJSON := f[1] == "1"
 					if isJSON && !wantJSON {
 						c.propfail("C16", fmt.Sprintf("nesting bomb beyond the cap reported as JSON: %s result=%s", desc, f[2]))
 					}
-					if wantJSON && cl && lim == 0 && !isJSON {
+					if wantJSON && cl && lim == 0 && f[2] != "application/json" && f[2] != "application/geo+json" && f[2] != "model/gltf+json" {
 						c.propfail("C08", fmt.Sprintf("valid document with %d bytes of padding not reported as JSON: %s result=%s", d, desc, f[2]))
 					}
 				}
@@ -151,8 +155,48 @@ func runBombs(c *runCtx, prop string) {
 	}
 }
 
+func (c *runCtx) garbageProp() string {
+	if c.prop == "C09" {
+		return "C09"
+	}
+	return "C16"
+}
+
 func bombInput(sh string, d int, cl bool) []byte {
 	switch sh {
+	case "sib-arr": // a completed sibling first, then the bomb
+		if cl {
+			return append(append([]byte("[0,"), closed("arr", d)...), ']')
+		}
+		return append([]byte("[0,"), bomb("arr", d)...)
+	case "sib-obj":
+		if cl {
+			return append(append([]byte("{\"a\":0,\"b\":"), closed("obj", d)...), '}')
+		}
+		return append([]byte("{\"a\":0,\"b\":"), bomb("obj", d)...)
+	case "wide-obj": // no nesting at all: d members side by side
+		var sb bytes.Buffer
+		sb.WriteString("{")
+		for i := 0; i < d; i++ {
+			if i > 0 {
+				sb.WriteString(",")
+			}
+			sb.WriteString("\"k\":0")
+		}
+		if cl {
+			sb.WriteString("}")
+		}
+		return sb.Bytes()
+	case "wide-arr":
+		s := "[" + strings.Repeat("0,", d) + "0"
+		if cl {
+			s += "]"
+		}
+		return []byte(s)
+	case "arr-garbage": // malformed whatever the depth
+		return []byte(strings.Repeat("[", d/100+4200) + "} this is not json")
+	case "deep-ok": // as deep as allowed, and not deeper
+		return closed("arr", 4096)
 	case "ws-pad":
 		return []byte(strings.Repeat(" ", d) + "[{\"k\": [1, 2, 3]}]" + strings.Repeat(" ", d))
 	case "nl-pad":
